@@ -165,9 +165,14 @@ const char* property_ids()
 
 static const int NSLOT = 6;
 static const char* LIBS[] = { "libvfa.so", "libvfb.so", "libvf_missing.so", "<self>" };
+// a second spelling of "missing": a path with a colon and a blank in it
+static const char* MISSING_ODD = "no such dir: plugins/libvf x.so";
 // the last two are defined in the process (the harness binary, libstdc++) but in none of the libraries
-static const char* SYMS[] = { "vf_value", "vf_other", "vf_not_defined", "vf_self_value", "_ZSt9terminatev" };
-static const int NSYM = 5;
+// ... "vf: missing" does not exist anywhere (a name with a colon and a blank); "vf_null_sym" exists in library A
+// with the value 0 (an absolute symbol): it can be looked up and held, not called
+static const char* SYMS[] = { "vf_value", "vf_other", "vf_not_defined", "vf_self_value", "_ZSt9terminatev",
+                              "vf: missing", "vf_null_sym" };
+static const int NSYM = 7;
 
 std::string describe(const Case& c)
 {
@@ -226,7 +231,7 @@ Case generate(vf::Src& src, const std::string& mode)
                         ch = '_';
             return s;
         };
-        c.name = src.coin(70) ? src.str("ABCxyz_09", 1, 8) : bytes(1, 12, true);
+        c.name = src.coin(70) ? src.str("ABCxyz_09-", 1, 8) : bytes(1, 12, true);
         c.state = static_cast<int>(src.weighted({ 30, 25, 45 }));
         static const std::vector<std::string> vals = { "v", " ", "=", "a=b", "-5", "--x", ";", "\xff\xfe",
                                                        "two words", "0", "false", "\n" };
@@ -261,10 +266,12 @@ Case generate(vf::Src& src, const std::string& mode)
         op.b = src.irange(0, NSLOT - 1);
         if (src.coin(40))
             op.b += NSLOT; // a failure of this operation is looked at later, not in the handler
+        if (src.coin(40))
+            op.b += 2 * NSLOT; // the missing library is spelled with a colon and a blank in its path
         if (op.code == OPEN)
             op.arg = static_cast<int>(src.weighted({ 35, 30, 20, 15 }));
         else if (op.code == LOAD)
-            op.arg = static_cast<int>(src.weighted({ 48, 28, 10, 8, 6 }));
+            op.arg = static_cast<int>(src.weighted({ 44, 26, 8, 7, 5, 5, 5 }));
         else if (op.code == LOAD_TEMP)
             op.arg = src.irange(0, 1);
         c.ops.push_back(op);
@@ -396,6 +403,8 @@ static std::string check_dl(const Case& c, vf::Ctx& ctx)
                 {
                     if (lib == 3)
                         slot[a].lib.reset(new nitro::dl::dl(nitro::dl::self));
+                    else if (lib == 2 && op.b / NSLOT / 2 % 2)
+                        slot[a].lib.reset(new nitro::dl::dl(dir + "/" + MISSING_ODD));
                     else
                         slot[a].lib.reset(new nitro::dl::dl(path_of(lib)));
                     if (lib == 2)
@@ -444,7 +453,17 @@ static std::string check_dl(const Case& c, vf::Ctx& ctx)
                 }
                 else if (lib == 3 && sidx == 4)
                     name = SYMS[2]; // through the handle of the program itself the name would resolve
-                if (!exists && sidx >= 3)
+                if (sidx == 5)
+                    exists = false;
+                if (sidx == 6)
+                {
+                    exists = lib == 0; // only library A has it
+                    if (lib == 3)
+                        name = SYMS[2];
+                    if (exists)
+                        ctx.tag("dl:symbol-with-value-null");
+                }
+                if (!exists && (sidx == 3 || sidx == 4))
                     ctx.tag("dl:name-defined-elsewhere-in-the-process");
                 slot[a].clear();
                 try
@@ -500,7 +519,7 @@ static std::string check_dl(const Case& c, vf::Ctx& ctx)
                 ctx.tag("dl:assign");
                 break;
             case CALL:
-                if (slot[a].sym)
+                if (slot[a].sym && slot[a].symidx != 6)
                 {
                     int lib = events[static_cast<std::size_t>(slot[a].event)].lib;
                     int want = lib == 3 ? 77 : (lib == 0 ? 11 : 22) + (slot[a].symidx == 1 ? 100 : 0);
@@ -612,6 +631,12 @@ static std::string check_env(const Case& c, vf::Ctx& ctx)
     if (c.neighbour)
     {
         nb.names = { name + "_MAX", name + "x", "X" + name };
+        // the same name with '-' and '_' exchanged is another variable
+        std::string twin = name;
+        for (std::size_t i = 12; i < twin.size(); ++i)
+            twin[i] = twin[i] == '-' ? '_' : (twin[i] == '_' ? '-' : twin[i]);
+        if (twin != name)
+            nb.names.push_back(twin);
         for (auto& n : nb.names)
             ::setenv(n.c_str(), "neighbour=1", 1);
         ctx.tag("env:neighbouring-names-set");
